@@ -370,6 +370,11 @@ func c16Request(sym string) []byte {
 var c16Max = 2
 
 func newC16Node(useProxy bool) *c16Node {
+	return newC16NodeT(useProxy, 24*time.Hour, 24*time.Hour)
+}
+
+// newC16NodeT builds the node with the given monitor interval and batch timeout (24 h each when the writer is stepped by hand).
+func newC16NodeT(useProxy bool, monitor, timeout time.Duration) *c16Node {
 	c16Alphabet()
 	n := &c16Node{cas: fx.NewMemCAS(), anchor: &c16Anchor{}, queue: &opqueue.MemQueue{}, verOf: map[string]uint64{}}
 	n.anchor.node = n
@@ -391,12 +396,97 @@ func newC16Node(useProxy bool) *c16Node {
 		n.proxy = &queueProxy{inner: n.queue}
 		q = n.proxy
 	}
-	w, err := batch.New("did:sidetree", &c16Ctx{pc: client, anchor: n.anchor, queue: q}, batch.WithBatchTimeout(24*time.Hour), batch.WithMonitorInterval(24*time.Hour))
+	w, err := batch.New("did:sidetree", &c16Ctx{pc: client, anchor: n.anchor, queue: q}, batch.WithBatchTimeout(timeout), batch.WithMonitorInterval(monitor))
 	if err != nil {
 		panic(err)
 	}
 	n.writer = w
 	return n
+}
+
+// c16MainLoop runs the writer's own goroutine (Start: timers and the select loop that the stepped searches bypass). Real
+// time is only used for safety statements that waiting longer can only confirm: with a batch timeout of 24 h no number of
+// monitor ticks may cut an undersized batch. Whether a due cut happens within the polling horizon is reported as an
+// outcome, never as a violation.
+func c16MainLoop(r *hx.Run) {
+	anchored := func(n *c16Node) []qBatch {
+		n.anchor.mu.Lock()
+		defer n.anchor.mu.Unlock()
+		return append([]qBatch(nil), n.anchor.log...)
+	}
+	waitFor := func(n *c16Node, want int, horizon time.Duration) bool {
+		deadline := time.Now().Add(horizon)
+		for time.Now().Before(deadline) {
+			if len(anchored(n)) >= want {
+				return true
+			}
+			time.Sleep(2 * time.Millisecond)
+		}
+		return len(anchored(n)) >= want
+	}
+	saved := c16Max
+	c16Max = 2
+	defer func() { c16Max = saved }()
+	if caseID := "mainloop|monitor-ticks-do-not-force"; r.Want(caseID) {
+		n := newC16NodeT(false, 2*time.Millisecond, 24*time.Hour)
+		n.writer.Start()
+		time.Sleep(10 * time.Millisecond) // the start-up pass over the (empty) queue
+		_, _ = n.add("C1", 0)
+		time.Sleep(150 * time.Millisecond) // dozens of monitor ticks
+		r.Eval()
+		r.State()
+		r.Nontrivial(caseID)
+		if got := anchored(n); len(got) != 0 || n.queue.Len() != 1 {
+			r.Violation("mainloop:undersized-batch-cut-without-timeout", caseID, fmt.Sprintf("one queued operation (maximum 2), batch timeout 24 h, monitor interval 2 ms: anchored %v, queue length %d", got, n.queue.Len()), nil)
+		}
+		_, _ = n.add("C2", 0) // the batch is full now: a monitor tick cuts it
+		full := waitFor(n, 1, 20*time.Second)
+		r.Outcome(fmt.Sprintf("mainloop: full batch cut by a monitor tick within the horizon=%v", full))
+		if got := anchored(n); full && (len(got) != 1 || got[0].count != 2) {
+			r.Violation("mainloop:batch-content", caseID, fmt.Sprintf("full batch anchored as %v", got), nil)
+		}
+		n.writer.Stop()
+	}
+	if caseID := "mainloop|version-boundary"; r.Want(caseID) {
+		n := newC16NodeT(false, 2*time.Millisecond, 24*time.Hour)
+		n.writer.Start()
+		time.Sleep(10 * time.Millisecond)
+		_, _ = n.add("C1", 0)
+		_, _ = n.add("C2", 10) // version boundary behind C1: C1 may be cut by a monitor tick, C2 (alone, undersized) may not
+		time.Sleep(150 * time.Millisecond)
+		r.Eval()
+		r.State()
+		r.Nontrivial(caseID)
+		for _, b := range anchored(n) {
+			if b.version != 0 || b.count != 1 {
+				r.Violation("mainloop:undersized-batch-cut-without-timeout", caseID, fmt.Sprintf("batch %+v anchored: only the operation in front of the version boundary may be cut without a timeout", b), nil)
+			}
+		}
+		n.writer.Stop()
+	}
+	if caseID := "mainloop|timeout-forces"; r.Want(caseID) {
+		n := newC16NodeT(false, 24*time.Hour, 5*time.Millisecond)
+		n.writer.Start()
+		time.Sleep(10 * time.Millisecond)
+		_, _ = n.add("C1", 0)
+		cut := waitFor(n, 1, 20*time.Second)
+		r.Eval()
+		r.State()
+		r.Outcome(fmt.Sprintf("mainloop: undersized batch cut on batch timeout within the horizon=%v", cut))
+		if got := anchored(n); cut && (got[0].count != 1 || got[0].version != 0) {
+			r.Violation("mainloop:batch-content", caseID, fmt.Sprintf("timeout batch anchored as %v", got), nil)
+		}
+		n.writer.Stop()
+		// a stopped writer's loop has ended: nothing is anchored afterwards and Add is refused
+		before := len(anchored(n))
+		if _, err := n.add("C2", 0); err == nil {
+			r.Violation("mainloop:stopped-writer-accepts", caseID, "Add succeeded after Stop", nil)
+		}
+		time.Sleep(30 * time.Millisecond)
+		if len(anchored(n)) != before {
+			r.Violation("mainloop:anchors-after-stop", caseID, "a batch was anchored after Stop", nil)
+		}
+	}
 }
 
 func (n *c16Node) add(sym string, v uint64) (string, error) {
@@ -1170,7 +1260,7 @@ func c16Concurrent(r *hx.Run) {
 
 func c16(r *hx.Run) {
 	fx.Quiet()
-	r.Rule = "(a) breadth-first search over event sequences {Add(op, version) over 5 operations x 2 protocol versions; monitor tick; timeout tick; each tick with no fault, a chosen CAS write failing, or the anchor write failing} to depth 5 (thorough 6) with <=3 (4) adds (quick: 8 add events and 10 tick events; thorough: 10 and 16), de-duplicated on the reference state; every transition replays the sequence on a fresh real Writer + cutter + MemQueue + OperationHandler in lock-step with the list reference model (queue content, every handler invocation, every anchored batch); (b) stateless exploration of 4 concurrent scenarios (2-3 submitter goroutines + a writer goroutine taking explorer-chosen ticks and faults) under a cooperative scheduler with scheduling points at every mutex/atomic operation of memqueue.go / writer.go (import-rewritten overlay), all executions with <=2 (thorough 3) deviations (preemptions + faults): linearized queue calls replayed on a FIFO list, batch invariants, no deadlock, and after a fault-free drain every accepted operation anchored exactly once. Non-trivial: distinct reference states with an anchored batch; distinct batch partitions observed."
+	r.Rule = "(a) breadth-first search over event sequences {Add(op, version) over 5 operations x 2 protocol versions; monitor tick; timeout tick; each tick with no fault, a chosen CAS write failing, or the anchor write failing} to depth 5 (thorough 6) with <=3 (4) adds (quick: 8 add events and 10 tick events; thorough: 10 and 16), de-duplicated on the reference state; every transition replays the sequence on a fresh real Writer + cutter + MemQueue + OperationHandler in lock-step with the list reference model (queue content, every handler invocation, every anchored batch); (b) stateless exploration of 4 concurrent scenarios (2-3 submitter goroutines + a writer goroutine taking explorer-chosen ticks and faults) under a cooperative scheduler with scheduling points at every mutex/atomic operation of memqueue.go / writer.go (import-rewritten overlay), all executions with <=2 (thorough 3) deviations (preemptions + faults): linearized queue calls replayed on a FIFO list, batch invariants, no deadlock, and after a fault-free drain every accepted operation anchored exactly once; (c) the writer's own goroutine (Start: timers + select loop) with a 2 ms monitor interval and a 24 h batch timeout: an undersized batch is not cut by any monitor tick (only the part in front of a version boundary is), a stopped writer anchors nothing more. Non-trivial: distinct reference states with an anchored batch; distinct batch partitions observed."
 	t0 := time.Now()
 	if (r.Only == "" || strings.HasPrefix(r.Only, "seq|")) && os.Getenv("VERIF_C16_PART") != "conc" {
 		c16Sequential(r)
@@ -1181,6 +1271,9 @@ func c16(r *hx.Run) {
 		c16Concurrent(r)
 	}
 	r.Extra["concurrent_wall_s"] = time.Since(t1).Seconds()
+	if r.Only == "" || strings.HasPrefix(r.Only, "mainloop|") {
+		c16MainLoop(r)
+	}
 	// supporting free-running pass under the race detector (thorough tier; binary built by run.sh)
 	if bin := os.Getenv("VERIF_RACE_BIN"); bin != "" && r.Only == "" {
 		cmd := exec.Command(bin, "--race-pass", "C16")
